@@ -202,68 +202,7 @@ func runC12(c *Ctx) {
 	}
 
 	// ---- R4 sentinel preservation
-	{
-		n := 0
-		for _, fn := range p.OwnFuncs {
-			if !strings.HasPrefix(FuncKey(fn), "pkg/db/diffdb.") || len(fn.Blocks) == 0 {
-				continue
-			}
-			ff := factsOf(fn)
-			for _, b := range fn.Blocks {
-				for _, in := range b.Instrs {
-					st, ok := in.(*ssa.Store)
-					if !ok {
-						continue
-					}
-					fa, ok := st.Addr.(*ssa.FieldAddr)
-					if !ok {
-						continue
-					}
-					o, s := ownerOfFieldBase(fa.X.Type())
-					if o != "db/diffdb.cacheValue" || s.Field(fa.Field).Name() != "init" {
-						continue
-					}
-					n++
-					v := stripConv(st.Val)
-					_, isMake := v.(*ssa.MakeSlice)
-					cst, isConst := v.(*ssa.Const)
-					isNil := isConst && cst.Value == nil
-					c.Require("C12.R4 sentinel-preserved", FuncKey(fn)+": cacheValue.init producer", p.InstrPos(st), "init is nil or a make()-allocated (always non-nil) copy — never a value that is nil for empty input", isMake || isNil, "value: "+T(st.Val).String())
-					// if the function reads another cacheValue's init, the store must be guarded by that init != nil
-					readsInit := false
-					for _, bb := range fn.Blocks {
-						for _, i2 := range bb.Instrs {
-							if fa2, ok := i2.(*ssa.FieldAddr); ok && fa2 != fa {
-								o2, s2 := ownerOfFieldBase(fa2.X.Type())
-								if o2 == "db/diffdb.cacheValue" && s2.Field(fa2.Field).Name() == "init" && fa2.X != fa.X {
-									readsInit = true
-								}
-							}
-						}
-					}
-					if readsInit {
-						guard := false
-						for _, f := range ff.FactsAt(b) {
-							if f.IsCmp && f.Op.String() == "!=" && ((IsField("db/diffdb.cacheValue", "init").Match(f.L) && f.R.Sym == "nil") || (IsField("db/diffdb.cacheValue", "init").Match(f.R) && f.L.Sym == "nil")) {
-								guard = true
-							}
-						}
-						c.Require("C12.R4 sentinel-preserved", FuncKey(fn)+": copies init only when present", p.InstrPos(st), "a copy keeps init == nil (key not in database) as nil", guard, "")
-					}
-				}
-			}
-		}
-		c.MinInstances("C12.R4 sentinel-preserved", n, 2)
-		// consumers test the sentinel with == nil
-		cf := factsOf(commit)
-		uses := 0
-		for _, f := range cf.Facts {
-			if f.IsCmp && (IsField("db/diffdb.cacheValue", "init").Match(f.L) || IsField("db/diffdb.cacheValue", "init").Match(f.R)) {
-				uses++
-			}
-		}
-		c.Require("C12.R4 sentinel-preserved", "cacheDB.commit tests init against nil", p.Pos(commit.Pos()), "commit classifies by init == nil", uses >= 2, "")
-	}
+	checkSentinelProducers(c, "C12.R4 sentinel-preserved", commit)
 
 	// ---- R5 merge
 	{
@@ -379,4 +318,73 @@ func runC12(c *Ctx) {
 		}
 		c.MinInstances("C12.R6 iterator-closed", n, 3)
 	}
+}
+
+// checkSentinelProducers: init == nil is the "key not in the database" marker
+// tested by commit/del; every producer of a cacheValue must preserve it.
+func checkSentinelProducers(c *Ctx, rule string, commit *ssa.Function) {
+	p := c.P
+	{
+		n := 0
+		for _, fn := range p.OwnFuncs {
+			if !strings.HasPrefix(FuncKey(fn), "pkg/db/diffdb.") || len(fn.Blocks) == 0 {
+				continue
+			}
+			ff := factsOf(fn)
+			for _, b := range fn.Blocks {
+				for _, in := range b.Instrs {
+					st, ok := in.(*ssa.Store)
+					if !ok {
+						continue
+					}
+					fa, ok := st.Addr.(*ssa.FieldAddr)
+					if !ok {
+						continue
+					}
+					o, s := ownerOfFieldBase(fa.X.Type())
+					if o != "db/diffdb.cacheValue" || s.Field(fa.Field).Name() != "init" {
+						continue
+					}
+					n++
+					v := stripConv(st.Val)
+					_, isMake := v.(*ssa.MakeSlice)
+					cst, isConst := v.(*ssa.Const)
+					isNil := isConst && cst.Value == nil
+					c.Require(rule, FuncKey(fn)+": cacheValue.init producer", p.InstrPos(st), "init is nil or a make()-allocated (always non-nil) copy — never a value that is nil for empty input", isMake || isNil, "value: "+T(st.Val).String())
+					// if the function reads another cacheValue's init, the store must be guarded by that init != nil
+					readsInit := false
+					for _, bb := range fn.Blocks {
+						for _, i2 := range bb.Instrs {
+							if fa2, ok := i2.(*ssa.FieldAddr); ok && fa2 != fa {
+								o2, s2 := ownerOfFieldBase(fa2.X.Type())
+								if o2 == "db/diffdb.cacheValue" && s2.Field(fa2.Field).Name() == "init" && fa2.X != fa.X {
+									readsInit = true
+								}
+							}
+						}
+					}
+					if readsInit {
+						guard := false
+						for _, f := range ff.FactsAt(b) {
+							if f.IsCmp && f.Op.String() == "!=" && ((IsField("db/diffdb.cacheValue", "init").Match(f.L) && f.R.Sym == "nil") || (IsField("db/diffdb.cacheValue", "init").Match(f.R) && f.L.Sym == "nil")) {
+								guard = true
+							}
+						}
+						c.Require(rule, FuncKey(fn)+": copies init only when present", p.InstrPos(st), "a copy keeps init == nil (key not in database) as nil", guard, "")
+					}
+				}
+			}
+		}
+		c.MinInstances(rule, n, 2)
+		// consumers test the sentinel with == nil
+		cf := factsOf(commit)
+		uses := 0
+		for _, f := range cf.Facts {
+			if f.IsCmp && (IsField("db/diffdb.cacheValue", "init").Match(f.L) || IsField("db/diffdb.cacheValue", "init").Match(f.R)) {
+				uses++
+			}
+		}
+		c.Require(rule, "cacheDB.commit tests init against nil", p.Pos(commit.Pos()), "commit classifies by init == nil", uses >= 2, "")
+	}
+
 }
